@@ -640,6 +640,26 @@ class Resolver:
                                     srcx = strip(srcx[2][0])
                                 if srcx[0] == 'array' and all(isinstance(it_, tuple) and it_[0] == 'tuple' and len(it_[1]) == 2 for it_ in srcx[1]):
                                     tbl = (srcx[1], fl_[2][1], mp[2][1])
+                    if ee[0] == 'call' and ee[3].endswith('Iterator::collect') and not tbl:
+                        # [(c1, quote!{A}), (c2, quote!{B})].into_iter().filter_map(|(c, t)| c.then_some(t)).collect(): the same list
+                        fm = strip(ee[2][0])
+                        if fm[0] == 'call' and fm[3].endswith('Iterator::filter_map') and len(fm[2]) == 2 and fm[2][1][0] == 'closure' and fm[2][1][1] in self.P.fns:
+                            srcx = strip(fm[2][0])
+                            while srcx[0] == 'call' and srcx[2] and re.search(r'(into_iter|::iter)$', srcx[1]):
+                                srcx = strip(srcx[2][0])
+                            fmc = self.P.fns[fm[2][1][1]]
+                            if srcx[0] == 'array' and all(isinstance(it_, tuple) and it_[0] == 'tuple' and len(it_[1]) == 2 for it_ in srcx[1]) and \
+                                    len(fmc.exits()) == 1 and not fmc.switches():
+                                fb = strip(fmc.exits()[0]['expr'])
+                                okf = fb[0] == 'call' and re.search(r'bool>?::then_some$', fb[1]) and len(fb[2]) == 2 and \
+                                    strip(fb[2][0])[0] == 'field' and strip(fb[2][0])[2] == '0' and strip(strip(fb[2][0])[1])[0] == 'arg' and \
+                                    strip(fb[2][1])[0] == 'field' and strip(fb[2][1])[2] == '1' and strip(strip(fb[2][1])[1])[0] == 'arg'
+                                if okf:
+                                    items = []
+                                    for it_ in srcx[1]:
+                                        items.append(((subst_args(strip(it_[1][0]), cur[2]), True), self.value(g, it_[1][1], depth + 1)))
+                                    if items:
+                                        return {'kind': 'vec', 'vec': ('vec', items), 'base': cur, 'chain': chain}
                     if tbl:
                         rows, fclo, mclo = tbl
                         fc, mc = self.P.fns.get(fclo[1]) if fclo[0] == 'closure' else None, self.P.fns.get(mclo[1]) if mclo[0] == 'closure' else None
